@@ -712,8 +712,9 @@ func (t *Tokenizer) skipWhitespaceAndComments() error {
 	}
 }
 
-// readLineComment consumes a "--" comment up to and including the end of the
-// line and records it. The cursor must be on the first '-'.
+// readLineComment consumes a "--" comment up to, but not including, the end of
+// the line and records it. The cursor must be on the first '-'. The newline is
+// left for skipWhitespace, so the comment's End is the end of its text.
 func (t *Tokenizer) readLineComment() {
 	commentStartIdx := t.pos.Index
 	commentStartPos := t.toSQLPosition(t.pos)
@@ -723,19 +724,12 @@ func (t *Tokenizer) readLineComment() {
 	for t.pos.Index < len(t.input) {
 		cr, csize := utf8.DecodeRune(t.input[t.pos.Index:])
 		if cr == '\n' {
-			t.pos.AdvanceRune(cr, csize) // Skip the newline too
 			break
 		}
 		t.pos.AdvanceRune(cr, csize)
 	}
-	commentEndIdx := t.pos.Index
-	// Trim trailing newline from comment text
-	textEnd := commentEndIdx
-	if textEnd > 0 && t.input[textEnd-1] == '\n' {
-		textEnd--
-	}
 	t.Comments = append(t.Comments, models.Comment{
-		Text:   string(t.input[commentStartIdx:textEnd]),
+		Text:   string(t.input[commentStartIdx:t.pos.Index]),
 		Style:  models.LineComment,
 		Start:  commentStartPos,
 		End:    t.toSQLPosition(t.pos),
